@@ -253,6 +253,10 @@ def judge(scn: dict, remote: List[str], fault: dict, out: dict) -> List[dict]:
     if out.get("pending_at_close"):
         v.append(dict(desc, kind="pending_tasks_at_loop_close", tasks=sorted(set(out["pending_at_close"]))[:6],
                       n=len(out["pending_at_close"])))
+    if out.get("never_awaited"):
+        v.append(dict(desc, kind="coroutine_never_awaited", warnings=out["never_awaited"][:3]))
+    if out.get("unhandled"):
+        v.append(dict(desc, kind="unhandled_error_in_event_loop", messages=out["unhandled"][:3]))
     socks = [w for w in out["resource_warnings"] if "socket" in w or "transport" in w]
     if socks:
         v.append(dict(desc, kind="unclosed_socket_or_transport", warnings=socks[:3]))
@@ -405,7 +409,8 @@ def evidence(m, tier, seed):
                 "KeyError, ConnectionError} for in-process simulators is "
                 "run once (thorough: 3 times): run() must end (watchdog 40 s; a hang counts only if it reproduces "
                 "twice), survivors finalized exactly once, no simulator process left after a grace period, loop "
-                "closed, no task pending at loop.close(), no unclosed socket/transport ResourceWarning, no request "
+                "closed, no task pending at loop.close(), no unclosed socket/transport ResourceWarning, no never-awaited "
+                "coroutine, no error reported to the loop's exception handler, no request "
                 "after finalize; distinct_nontrivial = distinct (scenario, simulator, request index, kind) whose "
                 "fault actually fired",
         "exhaustive": True,
